@@ -61,6 +61,8 @@ def impl(op, a):
         t = _new(a); raw = t.pack(); u = PusTc.unpack(bytes(raw))
         return [[int((u == t) and (t == u))]] + _fields(u)
     if op == 506:
+        if sum(a[0]) % 3 == 0:
+            return [[int(check_pus_crc(tc_packet=bytes(a[0])))]]
         return [[int(check_pus_crc(bytes(a[0])))]]
     if op == 507:
         t = _new(a); t.app_data = bytes(a[2]); raw = t.pack(); return [list(raw), [t.packet_len]]
